@@ -8,7 +8,6 @@ Source.status of every container. An edit is applied with Transformer / Substitu
 (invalidate_source=True) to ``unit.body`` or ``unit.spec``; afterwards the unit, the ``contains`` section of every
 enclosing unit, the enclosing units, ``sf.ir`` and ``sf.source`` are marked INVALID_CHILDREN.
 """
-import re
 
 from . import fflex
 
@@ -238,14 +237,21 @@ def apply_edit(sf, edit, serial, safe):
         invalidate_path(sf, unit)
         rec.update(applied=True, depth=0, kind='Variable', detail=f'{a} -> {b}')
         return rec
-    kind = KINDS[edit['kind'] % len(KINDS)]
     mode = op
     if op == 'replace':
         mode = edit.get('new', 'clone')      # clone | print | lit
-    cands = candidates(unit, mode, kind, safe)
+    cands = []
+    for shift in range(len(KINDS)):          # the drawn node kind, else the next kind that the unit offers
+        kind = KINDS[(edit['kind'] + shift) % len(KINDS)]
+        cands = candidates(unit, mode, kind, safe)
+        if cands:
+            break
     if not cands:
-        rec['why'] = f'no-candidate:{kind}'
+        rec['why'] = f'no-candidate:{mode}'
         return rec
+    deep = [c for c in cands if c[1] >= 1]
+    if deep and edit['idx'] % 4:
+        cands = deep                      # three out of four edits go into a construct when the unit has one
     tgt, depth = cands[edit['idx'] % len(cands)]
     rec.update(kind=kind, depth=depth)
     if op == 'delete':
@@ -456,6 +462,8 @@ def segments(sf, orig_lines):
             return
         l0, l1 = n.source.lines
         l1 = l1 or l0
+        if isinstance(n, ir.Section) and not n.body:
+            return                              # an empty specification / body part: nothing to write
         if is_trailing_comment(n, orig_lines):
             return                              # part of the statement line it trails
         sp = state['span']
@@ -489,7 +497,9 @@ def align(blocks, out_lines):
             b = blocks[i]
             if out_lines[pos:pos + len(b)] == b:
                 match[i].add(pos)
-    # f[i][pos] = best count for blocks i.. from output position pos
+    # weight of a placed block: distinctive (non-blank) lines count four times as much as blank lines
+    weight = [sum(4 if ln.strip() else 1 for ln in b) for b in blocks]
+    # f[i][pos] = best total weight for blocks i.. from output position pos
     nxt = [0] * (n + 2)
     choice = [None] * k
     table = [None] * (k + 1)
@@ -504,7 +514,7 @@ def align(blocks, out_lines):
             if cur[pos + 1] > best:
                 best = cur[pos + 1]                 # skip output line
             if pos in m:
-                v = 1 + below[min(pos + lb, n + 1)] if pos + lb <= n else 0
+                v = weight[i] + below[min(pos + lb, n + 1)] if pos + lb <= n else 0
                 if v > best:
                     best = v
             cur[pos] = best
@@ -525,7 +535,7 @@ def align(blocks, out_lines):
         while p <= n:
             if cur[p] < target:
                 break
-            if p in match[i] and p + lb <= n and 1 + below[p + lb] == target:
+            if p in match[i] and p + lb <= n and weight[i] + below[p + lb] == target:
                 place[i] = p
                 pos = p + lb
                 placed = True
@@ -658,6 +668,25 @@ def stale_valid_nodes(sf, ignore=()):
 
     rec(sf.ir)
     return problems
+
+
+def unmentioned_variables(sf):
+    """
+    VALID means unchanged: the source text of a VALID assignment / call must mention every variable that occurs in the
+    node's expressions (a substitution that leaves the source VALID would be written with the old names).
+    -> list of (class name, variable name, first source line)
+    """
+    from loki import ir, FindVariables
+    out = []
+    for n, anc, valid in reached(sf):
+        if not valid or not isinstance(n, (ir.Assignment, ir.CallStatement)):
+            continue
+        text = (n.source.string or '').lower()
+        for v in FindVariables().visit(n):
+            for part in str(v.name).lower().split('%'):
+                if part not in text:        # (substring test: kind suffixes such as 1.0_jprb count as a mention)
+                    out.append((type(n).__name__, part, n.source.lines[0]))
+    return out
 
 
 def count_valid_leaves(sf):
